@@ -18,6 +18,7 @@ from odl.operator.operator import (
 from odl.operator.default_ops import (
     IdentityOperator, ConstantOperator, MultiplyOperator)
 from odl.set import Field
+from odl.solvers.nonsmooth.proximal_operators import _scaled_stepsize
 from odl.solvers.nonsmooth import (proximal_arg_scaling, proximal_translation,
                                    proximal_quadratic_perturbation,
                                    proximal_const_func, proximal_convex_conj)
@@ -538,7 +539,8 @@ class FunctionalLeftScalarMult(Functional, OperatorLeftScalarMult):
                     sigma : positive float, optional
                         Step size parameter. Default: 1.0
                 """
-                return self.functional.proximal(sigma * self.scalar)
+                return self.functional.proximal(
+                    _scaled_stepsize(sigma, self.scalar))
 
             return proximal_left_scalar_mult
 
